@@ -160,9 +160,9 @@ def generic(prefix, node):
     return {'%s.%s' % (prefix, k): v.replace('NODE', node) for k, v in GENERIC.items()}
 
 
-_c = dict(generic('C03.emit.constant', 'constant'))
+_c = dict(generic('C03+C07.emit.constant', 'constant'))
 _c.update({
-    'C13.emit.constant.name_value_ctype': "all_calls('tagcontext', 'arg_tag_name == \\'constant\\' and "
+    'C07+C13.emit.constant.name_value_ctype': "all_calls('tagcontext', 'arg_tag_name == \\'constant\\' and "
                                           "attr_of(arg_attributes, \\'name\\') == constant.name and "
                                           "attr_of(arg_attributes, \\'value\\') == constant.value and "
                                           "attr_of(arg_attributes, \\'c:type\\') == constant.ctype')",
@@ -171,26 +171,26 @@ contract(G + '_write_constant', params={'self': 'GIRWriter', 'constant': 'Consta
          props=('C03', 'C13', 'C07'), requires=['wf(self)'], modifies=WRITER_MODS,
          raises={'ValueError': 'True', 'AssertionError': 'True', 'Exception': 'True'}, ensures=_c)
 
-_m = dict(generic('C03.emit.member', 'member'))
+_m = dict(generic('C03+C07.emit.member', 'member'))
 _m.update({
-    'C13.emit.member.name_value_identifier': "all_calls('tagcontext', 'arg_tag_name == \\'member\\' and "
+    'C07+C13.emit.member.name_value_identifier': "all_calls('tagcontext', 'arg_tag_name == \\'member\\' and "
                                              "attr_of(arg_attributes, \\'name\\') == member.name and "
                                              "attr_of(arg_attributes, \\'value\\') == str(member.value) and "
                                              "attr_of(arg_attributes, \\'c:identifier\\') == member.symbol')",
-    'C13.emit.member.nick': "all_calls('tagcontext', 'attr_of(arg_attributes, \\'glib:nick\\') == member.nick')",
+    'C07+C13.emit.member.nick': "all_calls('tagcontext', 'attr_of(arg_attributes, \\'glib:nick\\') == member.nick')",
 })
 _m['balanced'] = 'wf(self) and len(self._tag_stack) == old(len(self._tag_stack))'
 contract(G + '_write_member', params={'self': 'GIRWriter', 'member': 'Member'},
          props=('C03', 'C13', 'C07'), requires=['wf(self)'], modifies=WRITER_MODS,
          raises={'Exception': 'True'}, ensures=_m)
 
-_p = dict(generic('C03.emit.property', 'prop'))
+_p = dict(generic('C03+C07.emit.property', 'prop'))
 _p.update({
-    'C12.emit.property.flags': "all_calls('tagcontext', 'attr_of(arg_attributes, \\'readable\\') == (None if prop.readable else \\'0\\') and "
+    'C07+C12.emit.property.flags': "all_calls('tagcontext', 'attr_of(arg_attributes, \\'readable\\') == (None if prop.readable else \\'0\\') and "
                                "attr_of(arg_attributes, \\'writable\\') == flag(prop.writable) and "
                                "attr_of(arg_attributes, \\'construct\\') == flag(prop.construct) and "
                                "attr_of(arg_attributes, \\'construct-only\\') == flag(prop.construct_only)')",
-    'C03.emit.property.accessors': "all_calls('tagcontext', 'attr_of(arg_attributes, \\'setter\\') == (prop.setter if prop.setter else None) and "
+    'C03+C07.emit.property.accessors': "all_calls('tagcontext', 'attr_of(arg_attributes, \\'setter\\') == (prop.setter if prop.setter else None) and "
                                    "attr_of(arg_attributes, \\'getter\\') == (prop.getter if prop.getter else None) and "
                                    "attr_of(arg_attributes, \\'default-value\\') == (prop.default_value if prop.default_value else None) and "
                                    "attr_of(arg_attributes, \\'transfer-ownership\\') == (prop.transfer if prop.transfer else None)')",
@@ -207,15 +207,15 @@ contract(G + '_write_callable', params={'self': 'GIRWriter', 'callable': 'Callab
 contract(G + '_write_function_common', params={'self': 'GIRWriter', 'func': 'Function', 'tag_name': 'str'},
          props=('C03', 'C07'), requires=['wf(self)'], modifies=WRITER_MODS, raises={'Exception': 'True'},
          ensures={
-             'C03.emit.function.not_written_when_internally_skipped': "implies(func.internal_skipped, all_calls('_write_callable', 'False'))",
-             'C03.emit.function.identifier': "all_calls('_write_callable', 'arg_callable is func and arg_tag_name == tag_name and "
+             'C03+C07.emit.function.not_written_when_internally_skipped': "implies(func.internal_skipped, all_calls('_write_callable', 'False'))",
+             'C03+C07.emit.function.identifier': "all_calls('_write_callable', 'arg_callable is func and arg_tag_name == tag_name and "
                                              "attr_of(arg_extra_attrs, \\'c:identifier\\') == func.symbol')",
-             'C03.emit.function.shadowing': "all_calls('_write_callable', 'attr_of(arg_extra_attrs, \\'shadowed-by\\') == "
+             'C03+C07.emit.function.shadowing': "all_calls('_write_callable', 'attr_of(arg_extra_attrs, \\'shadowed-by\\') == "
                                             "(func.shadowed_by if func.shadowed_by else None) and "
                                             "attr_of(arg_extra_attrs, \\'shadows\\') == "
                                             "(func.shadows if func.shadows and not func.shadowed_by else None)')",
-             'C03.emit.function.moved_to': "all_calls('_write_callable', 'attr_of(arg_extra_attrs, \\'moved-to\\') == func.moved_to')",
-             'C03.emit.function.property_accessors': "all_calls('_write_callable', 'attr_of(arg_extra_attrs, \\'glib:set-property\\') == func.set_property "
+             'C03+C07.emit.function.moved_to': "all_calls('_write_callable', 'attr_of(arg_extra_attrs, \\'moved-to\\') == func.moved_to')",
+             'C03+C07.emit.function.property_accessors': "all_calls('_write_callable', 'attr_of(arg_extra_attrs, \\'glib:set-property\\') == func.set_property "
                                                      "and attr_of(arg_extra_attrs, \\'glib:get-property\\') == func.get_property')",
          })
 
@@ -429,19 +429,19 @@ contract(G + '_write_static_method', params={'self': 'GIRWriter', 'callable': 'F
          ensures={'balanced': 'wf(self) and len(self._tag_stack) == old(len(self._tag_stack))'},
          note='function element; the function writer (_write_function_common) is under contract separately')
 for _fn, _tag, _par in (('_write_enum', 'enumeration', 'enum'), ('_write_bitfield', 'bitfield', 'bitfield')):
-    _e = dict(generic('C03.emit.%s' % _tag, _par))
+    _e = dict(generic('C03+C07.emit.%s' % _tag, _par))
     _e.update({
-        'C13.emit.%s.element_name_ctype' % _tag:
+        'C07+C13.emit.%s.element_name_ctype' % _tag:
             "all_calls('tagcontext', 'arg_tag_name == \\'%s\\' and attr_of(arg_attributes, \\'name\\') == %s.name and "
             "attr_of(arg_attributes, \\'c:type\\') == %s.ctype')" % (_tag, _par, _par),
-        'C13.emit.%s.registered_type' % _tag:
+        'C07+C13.emit.%s.registered_type' % _tag:
             "all_calls('tagcontext', 'attr_of(arg_attributes, \\'glib:get-type\\') == (%s.get_type if %s.get_type else None) and "
             "attr_of(arg_attributes, \\'glib:type-name\\') == (%s.gtype_name if %s.get_type else None)')" % ((_par,) * 4),
-        'C13.emit.%s.one_member_element_per_member_in_order' % _tag:
+        'C07+C13.emit.%s.one_member_element_per_member_in_order' % _tag:
             "all_calls('_write_member', 'arg_member is %s.members[local_I1]')" % _par,
     })
     if _fn == '_write_enum':
-        _e['C13.emit.enumeration.error_domain'] = ("all_calls('tagcontext', 'attr_of(arg_attributes, \\'glib:error-domain\\') == "
+        _e['C07+C13.emit.enumeration.error_domain'] = ("all_calls('tagcontext', 'attr_of(arg_attributes, \\'glib:error-domain\\') == "
                                                    "(enum.error_domain if enum.error_domain else None)')")
     contract(G + _fn, params={'self': 'GIRWriter', _par: 'Enum' if _fn == '_write_enum' else 'Bitfield'},
              props=('C03', 'C13', 'C07'), requires=['wf(self)', '%s.members is not self._tag_stack' % _par,
@@ -487,9 +487,9 @@ contract(P + '_parse_property', params={'self': 'GIRParser', 'node': 'Element', 
 
 FIELD_EMITS = {'name': 'field.name', 'readable': 'EMIT_readable(field)', 'writable': 'flag(field.writable)',
                'bits': 'EMIT_bits(field)', 'private': 'flag(field.private)'}
-_f = dict(generic('C03.emit.field', 'field'))
+_f = dict(generic('C03+C07.emit.field', 'field'))
 # a field holding an anonymous callback is written with its name and the node-generic attributes only (no version attribute):
-_f['C03.emit.field.version'] = "implies(not field.anonymous_node, %s)" % _f['C03.emit.field.version']
+_f['C03+C07.emit.field.version'] = "implies(not field.anonymous_node, %s)" % _f['C03+C07.emit.field.version']
 _f.update(dict(('C07.write.field.%s' % k,
                 "implies(not field.anonymous_node, all_calls('tagcontext', 'attr_of(arg_attributes, \\'%s\\') == %s'))" % (k, v))
                for k, v in FIELD_EMITS.items()))
